@@ -36,7 +36,10 @@ func init() {
 			"NORMAL-CYL — side arrays completely filled, the horizontal part of each normal is a positive multiple of the horizontal part of the position stored at the same index, the vertical component has the sign of " +
 			"the vertex's height, the un-rotated cap is moved along its own normal; CAP-NORMAL — the disk has one constant unit normal perpendicular to every stored position; SEAM — every loop that emits triangles " +
 			"along a ring uses base + i and base + (i+1) mod n with n = number of iterations = vertices per ring (%, helper, if-wrap or an explicit closing triangle), counter from 0, step 1, no early exit, bases whole " +
-			"rings after the first ring vertex: each ring vertex starts exactly one ring edge and ends exactly one. NOT decided: anything that needs a numeric value of sin or cos (cap orientation, the rotated bottom cap, " +
+			"rings after the first ring vertex: each ring vertex starts exactly one ring edge and ends exactly one; QUAD-DIMS — each of the six quads of Cube.UnweldedQuads is pushed out along one axis by half the box's extent there and its " +
+			"two extents are the box's along the rotation axis (read from the zero pattern of the quaternion, the rotation is not evaluated) and along the remaining axis; LATITUDE — the arguments of the sin / cos atoms are uniform " +
+			"partitions tied to the loop bounds (longitude step·ring size = 2π, latitude step·(rings+1) = π from the pole or π/2 from the equator); CAP-FLIP-AXIS — the cylinder's flipped cap is half-turned about the coordinate that " +
+			"carries cos(angle) in both rims. NOT decided: anything that needs a numeric value of sin or cos (cap orientation, the rotated bottom cap, " +
 			"the cylinder's duplicated seam column, the cube built from rotated quads), pairing across rows, fan / strip winding, volumes of the parametrised solids.",
 		Assumptions: []string{
 			"real arithmetic; Width, Height, Depth > 0",
@@ -125,7 +128,7 @@ func run(c *props.Ctx) {
 		if P.IsControl(f.Pos()) && f.Parent() == nil && strings.HasPrefix(f.Name(), "verifControl") {
 			r := &rec{c: c, ctl: true}
 			solidCtl := ""
-			for _, pre := range []struct{ pre, rule string }{{"verifControlRadial", "NORMAL-RADIAL"}, {"verifControlCyl", "NORMAL-CYL"}, {"verifControlCap", "CAP-NORMAL"}, {"verifControlSeam", "SEAM"}} {
+			for _, pre := range []struct{ pre, rule string }{{"verifControlRadial", "NORMAL-RADIAL"}, {"verifControlCyl", "NORMAL-CYL"}, {"verifControlCap", "CAP-NORMAL"}, {"verifControlSeam", "SEAM"}, {"verifControlQuads", "QUAD-DIMS"}, {"verifControlLatitude", "LATITUDE"}, {"verifControlFlip", "CAP-FLIP-AXIS"}} {
 				if strings.HasPrefix(f.Name(), pre.pre) {
 					solidCtl = pre.rule
 				}
@@ -174,6 +177,9 @@ func run(c *props.Ctx) {
 	R.Floor("NORMAL-CYL", 1)
 	R.Floor("CAP-NORMAL", 1)
 	R.Floor("SEAM", 3)
+	R.Floor("QUAD-DIMS", 1)
+	R.Floor("LATITUDE", 4)
+	R.Floor("CAP-FLIP-AXIS", 1)
 }
 
 // solidAnchors: the constructors of the parametrised solids and the clauses decided on each.
@@ -181,11 +187,12 @@ var solidAnchors = []struct {
 	name  string
 	rules []string
 }{
-	{"UVSphere", []string{"NORMAL-RADIAL", "SEAM"}},
-	{"UVSphereUnwelded", []string{"NORMAL-RADIAL", "SEAM"}},
-	{"Hemisphere.UV", []string{"NORMAL-RADIAL", "SEAM"}},
-	{"Cylinder.ToMesh", []string{"NORMAL-CYL"}},
-	{"Circle.ToMesh", []string{"CAP-NORMAL", "SEAM"}},
+	{"Cube.UnweldedQuads", []string{"QUAD-DIMS"}},
+	{"UVSphere", []string{"NORMAL-RADIAL", "SEAM", "LATITUDE"}},
+	{"UVSphereUnwelded", []string{"NORMAL-RADIAL", "SEAM", "LATITUDE"}},
+	{"Hemisphere.UV", []string{"NORMAL-RADIAL", "SEAM", "LATITUDE"}},
+	{"Cylinder.ToMesh", []string{"NORMAL-CYL", "LATITUDE-STRIP", "CAP-FLIP-AXIS"}},
+	{"Circle.ToMesh", []string{"CAP-NORMAL", "SEAM", "LATITUDE"}},
 }
 
 func (k *checker) solidRule(r *rec, rule string, f *ssa.Function) {
@@ -198,6 +205,14 @@ func (k *checker) solidRule(r *rec, rule string, f *ssa.Function) {
 		k.capNormal(r, f)
 	case "SEAM":
 		k.seam(r, f)
+	case "QUAD-DIMS":
+		k.quadDims(r, f)
+	case "LATITUDE":
+		k.latitude(r, f, ringClosed)
+	case "LATITUDE-STRIP":
+		k.latitude(r, f, stripOpen)
+	case "CAP-FLIP-AXIS":
+		k.capFlipAxis(r, f)
 	}
 }
 
